@@ -45,6 +45,7 @@ def run(index, rep):
     rep.guard(loop_rule, index, rep)
     rep.guard(form_fish, index, rep)
     rep.guard(form_crops, index, rep)
+    rep.guard(form_greenhouse, index, rep)
     rep.guard(stock, index, rep, start)
     rep.guard(delay_industrial, index, rep)
     rep.guard(delay_greenhouse, index, rep)
@@ -358,15 +359,198 @@ def form_crops(index, rep):
                   detail=str(ay))
         rep.check(it.to_rat(obj.attrs.get("CROP_WASTE_DISTRIBUTION")) == K_(("c", "WASTE_DISTRIBUTION", "CROPS")), rule, "crops: distribution waste = CROPS",
                   "crop distribution waste is not WASTE_DISTRIBUTION[CROPS]", loc=loc(OC, fn))
-    # production = crops x (1 - W/100), no retail factor, no rounding
-    pf = index.func(OC, "OutdoorCrops.set_crop_production_minus_greenhouse_area")
+    production_form(index, rep, rule)
+
+
+def production_form(index, rep, rule):
+    """production = crops_produced x (1 - distribution waste): the rest of set_crop_production_minus_greenhouse_area is evaluated
+    with crops_produced opaque (shared by C08.FORM and C09.GH)"""
+    cls = index.cls(OC, "OutdoorCrops")
+    fn = index.func(OC, "OutdoorCrops.set_crop_production_minus_greenhouse_area")
+    gfa = Path(("gfa",))
+    def run_rest(it):
+        it.classes = {"OutdoorCrops": cls}
+
+        def hook(interp, d, a, kw, node):
+            if d == "Food":
+                return Obj(None, dict(kw), "food")
+            if d == "np.isnan":
+                return Obj(None, {}, "nan-test")
+            return np_hook(interp, d, a, kw, node)
+
+        it.call_hook = hook
+        obj = Obj(cls, {"CROP_WASTE_DISTRIBUTION": Rat.atom(("Wd",)), "OG_FRACTION_FAT": Rat.atom(("ff",)), "OG_FRACTION_PROTEIN": Rat.atom(("fp",))}, "self")
+        env = {"self": obj, "constants_for_params": Path(("c",)), "greenhouse_fraction_area": gfa, "crops_produced": Rat.atom(("CP",))}
+        rest = [st for st in fn.body[1:] if not isinstance(st, ast.Assert)]
+        it.exec_block(rest, env)
+        return obj
+
+    try:
+        rest_envs = explore(run_rest, month_classes=False)
+    except Unsupported as e:
+        raise AnalysisError(f"set_crop_production_minus_greenhouse_area (production part) outside the analysed fragment: {e}")
+    CP, Wd = Rat.atom(("CP",)), Rat.atom(("Wd",))
+    for _, dec, obj, it in rest_envs:
+        if isinstance(obj, Abort):
+            continue
+        prod = obj.attrs.get("production")
+        k = prod.attrs.get("kcals") if isinstance(prod, Obj) else None
+        ok = k is not None and it.to_rat(k) == CP * (Rat.const(1) - Wd / Rat.const(100))
+        rep.check(ok, rule, "production = crops_produced x (1 - W)", "the production series is not crops_produced x (1 - distribution waste)",
+                  loc=loc(OC, fn), detail=str(k))
+
+
+def form_greenhouse(index, rep):
+    """greenhouse crops: per-hectare yield month i = mean(seasonal cycle)/cropland x r_i (r_i > 1) or r_i^e, x (1-dist)(1-retail),
+    x rotation ratio x (1 + gain/100); series handed over = per-hectare yield x greenhouse area of the same month"""
+    rule = "C08.FORM"
+    fn = index.func(GH, "Greenhouses.assign_productivity_reduction_from_climate_impact")
+    loops = [s for s in fn.body if isinstance(s, ast.For)]
+    if len(loops) != 1 or norm_src(loops[0].iter) not in ("range(self.NMONTHS)", "range(0, self.NMONTHS)"):
+        raise AnalysisError("greenhouse productivity: `for i in range(self.NMONTHS)` not found")
+    loop = loops[0]
+    pre = [s for s in fn.body[: fn.body.index(loop)] if not isinstance(s, (ast.Assert, ast.Expr))]
+    post = [s for s in fn.body[fn.body.index(loop) + 1:] if not isinstance(s, (ast.Assert, ast.Expr))]
+    area, e_, coef = Rat.atom(("area",)), Rat.atom(("exponent",)), Rat.atom(("coef",))
+    mean_cycle = Rat.atom(("mean-cycle",))
+
+    def runit(it):
+        def hook(interp, d, a, kw, node):
+            if d == "np.mean" and a and isinstance(a[0], Path) and a[0].parts == ("cycle",):
+                return mean_cycle
+            if d == "round" and a:
+                return interp.to_rat(a[0])
+            return np_hook(interp, d, a, kw, node)
+
+        it.call_hook = hook
+        idx = {}
+        orig = it.getitem
+
+        def getitem(obj, key, node):
+            if isinstance(obj, Path) and obj.parts == ("amr",):
+                idx["red"] = canon(key)
+                return Rat.atom(("r",))
+            return orig(obj, key, node)
+
+        it.getitem = getitem
+        obj = Obj(None, {"TOTAL_CROP_AREA": area, "NMONTHS": Rat.atom(NSYM)}, "self")
+        env = {"self": obj, "months_cycle": Path(("cycle",)), "all_months_reductions": Path(("amr",)), "exponent": e_,
+               "CROP_WASTE_COEFFICIENT": coef, loop.target.id: Rat.atom(("i",))}
+        it.exec_block(pre, env)
+        lists = {k: v for k, v in env.items() if isinstance(v, PList) and not v.items}
+        it.exec_block([s for s in loop.body if not isinstance(s, ast.Assert)], env)
+        grown = [(k, v.items) for k, v in lists.items() if v.items]
+        return env, idx, grown
+
+    try:
+        envs = explore(runit, month_classes=False)
+    except Unsupported as e:
+        raise AnalysisError(f"greenhouse productivity loop outside the analysed fragment: {e}")
+    r = Rat.atom(("r",))
+    n = 0
+    lname = None
+    for _, dec, res, it in envs:
+        if isinstance(res, Abort):
+            continue
+        env, idx, grown = res
+        n += 1
+        gt1 = any(k.replace(" ", "").startswith("(-1+<r>)>0") and v for k, v in dec.items())
+        arm = "r>1" if gt1 else "r<=1"
+        ok = len(grown) == 1 and len(grown[0][1]) == 1 and idx.get("red") == "<i>"
+        if ok:
+            lname = grown[0][0]
+            v = it.to_rat(grown[0][1][0])
+            if gt1:
+                ok = v == mean_cycle / area * r
+            else:
+                pw = [a for a in v.atoms() if isinstance(a, tuple) and a[0] == "pow"]
+                ok = len(pw) == 1 and pw[0][1] == str(r) and pw[0][2] == str(e_) and v == mean_cycle / area * Rat.atom(pw[0])
+        rep.check(ok, rule, f"greenhouse per-hectare yield: month i = mean cycle / cropland x r_i (or r_i^e) [{arm}]",
+                  "the greenhouse yield per hectare of month i is not the average seasonal month / total cropland x the disruption ratio of "
+                  "month i (relocated: ratio^exponent for ratios <= 1)", loc=loc(GH, loop))
+    if n < 2 or lname is None:
+        raise AnalysisError("greenhouse productivity loop: expected both arms")
+    # after the loop: GH_KCALS_GROWN_PER_HECTARE = waste coefficient x that list, elementwise
+    it = Interp()
+    it.call_hook = np_hook
+    obj = Obj(None, {"NMONTHS": Rat.atom(NSYM)}, "self")
+    env = {"self": obj, lname: RLE(Rat.atom(("g",)), Rat.atom(NSYM)), "CROP_WASTE_COEFFICIENT": coef, "all_months_reductions": Path(("amr",))}
+    try:
+        it.exec_block(post, env)
+    except Unsupported as e:
+        raise AnalysisError(f"greenhouse productivity (after the loop) outside the analysed fragment: {e}")
+    out = obj.attrs.get("GH_KCALS_GROWN_PER_HECTARE")
+    segs = _segs(out) if out is not None else None
+    rep.check(bool(segs) and len(segs) == 1 and it.to_rat(segs[0][0]) == coef * Rat.atom(("g",)), rule,
+              "greenhouse per-hectare yield x waste coefficient", "the per-hectare series is not the computed list x the crop waste coefficient",
+              loc=loc(GH, fn))
+    # the coefficient passed in is (1 - dist CROPS)(1 - retail)
+    ga = index.func(GH, "Greenhouses.get_greenhouse_area")
+    calls = [c for c in walk_no_nested(ga) if isinstance(c, ast.Call) and isinstance(c.func, ast.Attribute)
+             and c.func.attr == "assign_productivity_reduction_from_climate_impact"]
+    ok = len(calls) == 1 and len(calls[0].args) == 4
+    if ok:
+        it2 = Interp()
+        env2 = {"constants_for_params": Path(("c",)), "self": Obj(None, {}, "self")}
+        for st in walk_no_nested(ga):
+            if isinstance(st, ast.Assign) and isinstance(st.targets[0], ast.Name) and st.targets[0].id == norm_src(calls[0].args[3]):
+                try:
+                    env2[st.targets[0].id] = it2.eval(st.value, env2)
+                except Unsupported:
+                    pass
+        v = env2.get(norm_src(calls[0].args[3]))
+        ok = isinstance(v, Rat) and v == keep("c", "CROPS") * (Rat.const(1) - K_(("c", "WASTE_RETAIL")) / Rat.const(100))
+        ok = ok and [norm_src(a) for a in calls[0].args[:3]] == ["outdoor_crops.months_cycle", "outdoor_crops.all_months_reductions",
+                                                                  "outdoor_crops.OG_KCAL_EXPONENT"]
+    rep.check(ok, rule, "greenhouse waste coefficient = (1 - CROPS distribution)(1 - retail); cycle, reductions, exponent from the crop model",
+              "the greenhouse yield does not receive the crop model's cycle / reductions / exponent and (1-dist)(1-retail) (greenhouse crops bypass "
+              "the LP's retail factor)", loc=loc(GH, ga))
+    # yield per ha -> x rotation ratio x (1 + gain/100); fat/protein = ratio x kcals
+    oc = Obj(None, {"KCAL_RATIO_ROTATION": Rat.atom(("kr",)), "FAT_RATIO_ROTATION": Rat.atom(("fr",)), "PROTEIN_RATIO_ROTATION": Rat.atom(("pr",))}, "oc")
+    res, fn2 = run_method(index, GH, "Greenhouses", "get_greenhouse_yield_per_ha",
+                          {"ADD_GREENHOUSES": True, "NMONTHS": Rat.atom(NSYM), "GH_KCALS_GROWN_PER_HECTARE": PList([Rat.atom(("y", 0)), Rat.atom(("y", 1))])},
+                          [Path(("c",)), oc])
+    dec, r_, obj, it3 = res[0]
+    gain = Rat.const(1) + K_(("c", "GREENHOUSE_GAIN_PCT")) / Rat.const(100)
+    ok = isinstance(r_, tuple) and len(r_) == 3
+    if ok:
+        lists = [_segs(x) for x in r_]
+        ok = all(ls is not None and len(ls) == 2 for ls in lists)
+        for j in range(2):
+            if not ok:
+                break
+            y = Rat.atom(("y", j))
+            ok = it3.to_rat(lists[0][j][0]) == y * Rat.atom(("kr",)) * gain and it3.to_rat(lists[1][j][0]) == y * Rat.atom(("kr",)) * gain * Rat.atom(("fr",)) \
+                and it3.to_rat(lists[2][j][0]) == y * Rat.atom(("kr",)) * gain * Rat.atom(("pr",))
+        ok = ok and all(getattr(x, "truncated_to", None) is not None and it3.to_rat(x.truncated_to) == Rat.atom(NSYM) for x in r_)
+    rep.check(ok, rule, "greenhouse yield: month m = per-hectare[m] x rotation ratio x (1 + gain/100), fat/protein by ratio, cut to NMONTHS",
+              "the greenhouse yield is not the per-hectare series x rotation ratio x (1 + gain/100) month by month", loc=loc(GH, fn2))
+    # handed to the optimiser: per-hectare yield x area of the same month
+    pf = index.func(PARAMS, "Parameters.init_greenhouse_params")
     foods = [c for c in walk_no_nested(pf) if isinstance(c, ast.Call) and dotted(c.func) == "Food"]
     ok = len(foods) == 1
     if ok:
-        kw = {k.arg: norm_src(k.value) for k in foods[0].keywords}
-        ok = kw.get("kcals") == "np.array(crops_produced) * (1 - self.CROP_WASTE_DISTRIBUTION / 100)"
-    rep.check(ok, rule, "crops: production = grown x (1 - distribution waste)", "crop production is not the grown series x (1 - CROPS distribution waste)",
-              loc=loc(OC, pf))
+        defs = {}
+        for st in walk_no_nested(pf):
+            if isinstance(st, ast.Assign):
+                for t in st.targets:
+                    if isinstance(t, ast.Name):
+                        defs.setdefault(t.id, []).append(norm_src(st.value))
+                    if isinstance(t, ast.Tuple):
+                        for k, e in enumerate(t.elts):
+                            if isinstance(e, ast.Name):
+                                defs.setdefault(e.id, []).append(f"{norm_src(st.value)}#{k}")
+        kw = {k.arg: k.value for k in foods[0].keywords}
+        for lane, slot in (("kcals", 0), ("fat", 1), ("protein", 2)):
+            c = kw.get(lane)
+            ok = ok and isinstance(c, ast.Call) and dotted(c.func) == "np.multiply" and len(c.args) == 2 and all(isinstance(a, ast.Name) for a in c.args)
+            if ok:
+                srcs = [defs.get(a.id, []) for a in c.args]
+                per_ha = [s_ for s_ in srcs if any(x.startswith("greenhouses.get_greenhouse_yield_per_ha(") and x.endswith(f"#{slot}") for x in s_)]
+                ar = [s_ for s_ in srcs if any(x.startswith("greenhouses.get_greenhouse_area(") for x in s_)]
+                ok = len(per_ha) == 1 and len(ar) == 1
+    rep.check(ok, rule, "greenhouse crops handed over = yield per hectare x greenhouse area (same lane, same run)",
+              "time_consts['greenhouse_crops'] is not the per-hectare yield of each nutrient x the greenhouse area", loc=loc(PARAMS, pf))
 
 
 def stock(index, rep, start):
